@@ -36,25 +36,7 @@ def case_key(e, order, what):
     return "GetEigenSystem/d=%d/%s/%s/%s" % (e["d"], FAM[e["f"]], degeneracy(e), what)
 
 
-def run(v, tier, seed, replay):
-    quick = tier == "quick"
-    dims = [2, 3, 4, 5, 6]
-    exe = vlib.build_harness("eigen_replay", "plain")
-    os.makedirs(vlib.BUILD, exist_ok=True)
-    cfg = os.path.join(vlib.BUILD, "C12_cat.cfg")
-    with open(cfg, "w") as f:
-        f.write(CFG_T.format(dims="{" + ",".join(map(str, dims)) + "}", tier=0 if quick else 1))
-    res = vlib.tlc("Eigen", cfg, workers=8, timeout=1500, keep_out=False)
-    vlib.tlc_ok(res, "Eigen")
-    if res.violated:
-        raise Infra("specification law violated in Eigen: %s\n%s" % (res.violated, res.out[-3000:]))
-    cases = {e["id"]: e for e in res.edges}
-    fams = {}
-    for e in cases.values():
-        fams[(e["f"], e["d"])] = fams.get((e["f"], e["d"]), 0) + 1
-    missing = [(FAM[f], d) for f in FAM for d in dims if not fams.get((f, d))]
-    if missing:
-        raise Infra("vacuity: families never generated by TLC: %s" % missing)
+def replay_cases(v, exe, cases, rand, seed, dims, level):
     lines_in = []
     for cid in sorted(cases):
         e = cases[cid]
@@ -62,8 +44,8 @@ def run(v, tier, seed, replay):
         parts += [1, flat5(e["M1"])] if e["M1"] else [0]
         parts.append(" ".join("%d %d %d" % tuple(x) for x in e["spec"]))
         lines_in.append(" ".join(str(x) for x in parts))
-    nrand = 400 if quick else 4000
-    for i in range(nrand):
+    nrand = len(rand)
+    for i in rand:
         lines_in.append("RAND %d %d %d %d" % (i, dims[i % len(dims)], seed * 1000003 + i, (i // len(dims)) % 2))
     rc, lines, err = vlib.run_lines(exe, "\n".join(lines_in) + "\n", timeout=900)
     done = [l for l in lines if l.startswith("DONE")]
@@ -90,14 +72,52 @@ def run(v, tier, seed, replay):
             v.violation(case_key(e, order, what),
                         "case %d (%s d=%d a=%d b=%d spectrum=%s shift=%d) order=%s: %s err=%s tol=%s" % (
                             cid, FAM[e["f"]], e["d"], e["a"], e["b"], e["spec"], e["s"], order, text, errv, tol), {"case": e, "order": int(order)})
-    v.add("states", res.distinct)
-    v.add("transitions", res.generated)
-    v.add("traces_validated_against_impl", len(cases))
     v.cov["calls_executed"] = int(ncalls)
-    v.cov["cases_by_family_and_d"] = {"%s/d=%d" % (FAM[f], d): n for (f, d), n in sorted(fams.items())}
     v.cov["seeded_dense_inputs"] = nrand
     v.cov["max_eigenvalue_error_over_tolerance"] = float(mev)
     v.cov["max_residual_over_tolerance"] = float(mres)
+    if level:
+        v.cov.update({"evaluations": len(cases), "distinct_nontrivial": len(cases), "rule": "cases of the replay file"})
+        v.sample({"case": sorted(cases)[0]})
+    return level
+
+
+def run(v, tier, seed, replay):
+    quick = tier == "quick"
+    dims = [2, 3, 4, 5, 6]
+    exe = vlib.build_harness("eigen_replay", "plain")
+    if replay:
+        import json
+        with open(replay) as f:
+            data = json.load(f)
+        rc_cases = {}
+        for viol in data.get("violations", []):
+            c = (viol.get("replay") or {}).get("case")
+            if c:
+                rc_cases[c["id"]] = c
+        if not rc_cases:
+            raise Infra("no structured case in replay file " + replay)
+        return replay_cases(v, exe, rc_cases, [], seed, [2, 3, 4, 5, 6], "exploration")
+    os.makedirs(vlib.BUILD, exist_ok=True)
+    cfg = os.path.join(vlib.BUILD, "C12_cat.cfg")
+    with open(cfg, "w") as f:
+        f.write(CFG_T.format(dims="{" + ",".join(map(str, dims)) + "}", tier=0 if quick else 1))
+    res = vlib.tlc("Eigen", cfg, workers=8, timeout=1500, keep_out=False)
+    vlib.tlc_ok(res, "Eigen")
+    if res.violated:
+        raise Infra("specification law violated in Eigen: %s\n%s" % (res.violated, res.out[-3000:]))
+    cases = {e["id"]: e for e in res.edges}
+    fams = {}
+    for e in cases.values():
+        fams[(e["f"], e["d"])] = fams.get((e["f"], e["d"]), 0) + 1
+    missing = [(FAM[f], d) for f in FAM for d in dims if not fams.get((f, d))]
+    if missing:
+        raise Infra("vacuity: families never generated by TLC: %s" % missing)
+    replay_cases(v, exe, cases, list(range(400 if quick else 4000)), seed, dims, None)
+    v.add("states", res.distinct)
+    v.add("transitions", res.generated)
+    v.add("traces_validated_against_impl", len(cases))
+    v.cov["cases_by_family_and_d"] = {"%s/d=%d" % (FAM[f], d): n for (f, d), n in sorted(fams.items())}
     v.cov["degeneracy_patterns"] = len(set((e["d"], degeneracy(e)) for e in cases.values()))
     v.cov["rule"] = ("every case of Eigen.tla: integer diagonals over all set partitions of the positions (every degeneracy pattern), all 0/1 diagonals, "
                      "c*I, +-1,3 x every generator, dense conjugates U D U^dagger (U products of pi/4 and pi/2 plane rotations) for every degeneracy pattern "
